@@ -87,6 +87,27 @@ def run(chk):
                     if not (np.all(np.isfinite(v)) and np.all(np.isfinite(w)) and abs(float(np.sum(w)) - 1) < 1e-12):
                         chk.fail("k-means cluster variances/weights are not finite / do not sum to one (%s data)" % kind, dict(ctx, init=hexlist(init)))
                         break
+        # ---------------------------------------------------------------- finite half- / single-precision data whose SQUARES leave the range of their
+        #                                                                  own type (float16 around 400, float32 around 1e20): finite cluster
+        #                                                                  variances / weights and a finite k-means-initialised GMM
+        if i % 6 == 4:
+            for dt_, off_, sc_ in ((np.float16, 400.0, 1.0), (np.float32, 1e20, 1e18)):
+                Xh = (np.vstack([g.normal(size=(6, D)) * sc_ + off_, g.normal(size=(6, D)) * sc_ - off_])).astype(dt_)
+                init_h = np.array([[off_] * D, [-off_] * D], dtype=float)
+                import warnings as _w
+                with _w.catch_warnings():
+                    _w.simplefilter("ignore")
+                    kmh = KMeansMachine(n_clusters=2, init_method=init_h, max_iter=2).fit(Xh)
+                    vh, wh = kmh.get_variances_and_weights_for_each_cluster(Xh)
+                    gh = GMMMachine(n_gaussians=2, max_fitting_steps=1, convergence_threshold=None,
+                                    k_means_trainer=KMeansMachine(2, init_method=init_h, max_iter=2))
+                    gh.fit(Xh)
+                chk.count(1, key=("kmeans / gmm init", np.dtype(dt_).name))
+                okh = (np.all(np.isfinite(kmh.centroids_)) and np.all(np.isfinite(vh)) and np.all(np.isfinite(wh))
+                       and np.all(np.isfinite(gh.means)) and np.all(np.isfinite(gh.variances)) and np.all(np.isfinite(gh.weights)))
+                if not okh:
+                    chk.fail("finite %s data around %g: k-means cluster variances / the k-means-initialised GMM are not finite (variances %s)"
+                             % (np.dtype(dt_).name, off_, np.asarray(vh).tolist()), {"dtype": np.dtype(dt_).name, "X": hexlist(Xh.astype(float)), "init": hexlist(init_h)})
         # ---------------------------------------------------------------- GMM initialised from k-means, ML, every switch setting
         sw = SWITCHES[i % 8]
         for cap in (0, 1, 2, 4):
